@@ -1,8 +1,7 @@
 (* C11 — the merged fragment `ambus` seen from the full statement's hypotheses: a bus that is `well_formed` and
    `names_ok` (RoundTrip.v: the hypotheses of export_import_full_statement) lies in `ambus` as soon as it is FLAT:
    every multiplexer is top-level (no multiplexer inside a multiplexer), the top-level signals of a message are
-   listed in position order, a multiplexed signal lists fewer groups than its multiplexer has (or none: fixed, the
-   multiplexer then has at least two groups), and minimum enum sizes fit 32 bits.  So the whole-bus theorem covers
+   listed in position order, and minimum enum sizes fit 32 bits.  So the whole-bus theorem covers
    every well-formed, DBC-expressible bus without nested multiplexing. *)
 From Coq Require Import String Ascii ZArith List Bool Lia Permutation.
 From Coq Require Import ZifyBool.
@@ -14,9 +13,7 @@ Open Scope Z_scope.
 
 Definition flat_sigs (sigs : list signal) : Prop :=
   (forall s, In s sigs -> is_muxb s = true -> is_topb s = true) /\
-  ascending_by s_rel (filter is_topb sigs) /\
-  (forall c p, In c sigs -> In p sigs -> s_parent c = Some (s_id p) ->
-     (s_groups c = [] -> 2 <= s_gcount p) /\ (s_groups c <> [] -> Z.of_nat (length (s_groups c)) < s_gcount p)).
+  ascending_by s_rel (filter is_topb sigs).
 Definition flat_bus (b : bus) : Prop :=
   Forall (fun m => flat_sigs (m_signals m)) (b_messages b) /\ Forall (fun e => en_minsize e < 2 ^ 32) (b_enums b).
 
@@ -80,7 +77,7 @@ Section Msg.
 
   Lemma msigs_of_wf : msigs_ok es (map strip_sig sigs).
   Proof.
-    pose proof Hwf as [Hids [_ [_ [Htopd _]]]]. pose proof Hflat as [Hf [Hasc Hgr]].
+    pose proof Hwf as [Hids [_ [_ [Htopd _]]]]. pose proof Hflat as [Hf Hasc].
     unfold msigs_ok. split; [rewrite map_map; exact Hids|]. split; [rewrite map_map; exact Hnames|]. split.
     { rewrite filter_map_comm. change (fun x => is_topb (strip_sig x)) with is_topb. apply Forall_forall. intros s' Hs'.
       apply in_map_iff in Hs'. destruct Hs' as [s [<- Hs]]. apply filter_In in Hs. destruct Hs as [Hs Ht].
@@ -101,15 +98,14 @@ Section Msg.
       destruct Wp as [[P1 P2] [P3 Pd]].
       assert (Hnm : s_kind c <> KMux).
       { intros E. assert (is_topb c = true) by (apply Hf; [assumption|unfold is_muxb; rewrite E; reflexivity]). congruence. }
-      destruct (Hgr c p Hc Hp Hpar) as [Gf Gl].
       destruct (in_group_first c p Ga Gb P1) as [g [Hg Hing]].
       assert (Hcin : In c (filter (fun c0 => in_group c0 g) (children_of sigs p))).
       { apply filter_In. split; [|exact Hing]. unfold children_of. apply filter_In. split; [assumption|]. rewrite Hpar. apply Z.eqb_refl. }
       destruct (Pd g Hg) as [Hb _]. rewrite Forall_forall in Hb. pose proof (Hb c Hcin) as Hbc.
       unfold child_ok. cbn [s_kind s_parent s_groups s_startval s_sendtype s_attrs s_size s_rel s_id s_gcount s_gsize strip_sig]. rewrite sig_size_strip.
       refine (conj Hnm (conj Hpar (conj _ (conj eq_refl (conj eq_refl (conj eq_refl (conj _ (conj (proj1 Hbc) (proj2 Hbc))))))))).
-      - unfold groups_ok. destruct (s_groups c) as [|g0 gr] eqn:Eg; [left; split; [reflexivity|apply Gf; reflexivity]|].
-        right. split; [discriminate|]. split; [exact Ga|]. split; [exact Gb|apply Gl; discriminate].
+      - unfold groups_ok. destruct (s_groups c) as [|g0 gr] eqn:Eg; [left; split; [reflexivity|lia]|].
+        right. split; [discriminate|]. split; [exact Ga|exact Gb].
       - intros Ek. rewrite Ek in Wk. lia. }
     intros c1 c2 H1 H2 T1 T2 Hne Hpp [g [Hg0 [I1 I2]]].
     apply in_map_iff in H1. destruct H1 as [c [<- Hc]]. apply in_map_iff in H2. destruct H2 as [c' [<- Hc']].
@@ -192,7 +188,7 @@ Proof.
     - apply (msigs_of_wf (b_enums b) (m_size m) (m_signals m) Hsw Hf Hnms).
     - pose proof (msigs_of_wf (b_enums b) (m_size m) (m_signals m) Hsw Hf Hnms) as [_ [_ [Htops _]]].
       rewrite filter_map_comm in *. change (fun x => is_topb (strip_sig x)) with is_topb in *.
-      destruct Hsw as [_ [_ [_ [[Hb Hd] _]]]]. destruct Hf as [_ [Hasc _]].
+      destruct Hsw as [_ [_ [_ [[Hb Hd] _]]]]. destruct Hf as [_ Hasc].
       change (filter (fun s : signal => match s_parent s with None => true | Some _ => false end) (m_signals m)) with (filter is_topb (m_signals m)) in Hb, Hd.
       assert (G : forall l, Forall (top_ok (b_enums b)) (map strip_sig l) -> ascending_by s_rel l ->
                   Forall (fun s => 0 <= s_rel s /\ s_rel s + sig_size (b_enums b) s <= m_size m * 8) l ->
@@ -432,11 +428,9 @@ Qed.
 Example bridge_flat : flat_bus bridge_bus.
 Proof.
   split; [|constructor].
-  constructor; [|constructor]. cbn [m_signals bridge_bus]. split; [|split].
+  constructor; [|constructor]. cbn [m_signals bridge_bus]. split.
   - intros s Hs Hm. unfold bsigs in Hs. cbn [In] in Hs. repeat (destruct Hs as [<-|Hs]; [first [reflexivity|discriminate Hm]|]). destruct Hs.
   - cbn. repeat split; lia.
-  - intros c p Hc Hp Hpar. unfold bsigs in Hc, Hp. cbn [In] in Hc, Hp.
-    repeat (destruct Hc as [<-|Hc]; [cbn in Hpar; try discriminate Hpar; repeat (destruct Hp as [<-|Hp]; [cbn in Hpar; try (inversion Hpar; fail); cbn; split; intros; try discriminate; try lia; try congruence|]); try destruct Hp|]); try destruct Hc.
 Qed.
 Example bridge_roundtrip : exists b', export_import bridge_bus = Ok b' /\ proj_bus b' = proj_bus bridge_bus.
 Proof. apply export_import_wf_flat; [exact bridge_wf|exact bridge_names|exact bridge_flat]. Qed.
